@@ -74,6 +74,9 @@ def _setup(c, it, cfg, noise="sym", pathloss=True, rerandomize=False):
     if noise == "sym":
         nv = c.var("nv", "real")
         c.assume(nv >= 0)
+    elif noise == "symint":           # an integer-typed noise variance (e.g. noise_var = 1): a number like any other
+        nv = c.var("nvi", "int")
+        c.assume(nv >= 0)
     elif noise == "none":
         nv = None
     else:
@@ -122,7 +125,8 @@ def _ratio_goals(label, r, num, den):
 
 
 @obligation("channel/calc_SINR_first_principles", params=[{"cfg": n, "noise": nz, "rerand": rr} for n in CONFIGS for nz in ("sym", "none", "zero")
-                                                          for rr in (False, True) if not (rr and nz != "sym")],
+                                                          for rr in (False, True) if not (rr and nz != "sym")] +
+            [{"cfg": "K3", "noise": "symint", "rerand": False}, {"cfg": "EXT", "noise": "symint", "rerand": False}],
             timeout=120,
             desc="calc_SINR(F,U) (plain and ext-int classes): every stream's value equals |u^H H_kk f_l|^2 / (all other streams of all users "
                  "+ external interference + filtered noise); non-negative; noise None/0/symbolic; current path loss")
@@ -284,12 +288,15 @@ def ob_Q(cfg, noise):
     return verify(body, timeout_ms=30000, check_side=False)
 
 
-@obligation("solver/agrees_with_channel_and_first_principles", params=[{"cfg": n, "noise": nz} for n in ("K2", "K3") for nz in ("sym", "none")],
+@obligation("solver/agrees_with_channel_and_first_principles", params=[{"cfg": n, "noise": nz} for n in ("K2", "K3") for nz in ("sym", "none")] +
+            [{"cfg": "K3", "noise": nz, "prec": "explicit_full_F"} for nz in ("sym", "none")],
             timeout=120,
             desc="IASolverBaseClass.calc_SINR after set_precoders / set_receive_filters with symbolic matrices and powers, and again after the "
                  "power is CHANGED through the P setter: equals the first-principles value for precoders F*sqrt(P_current) and filters "
-                 "(W^H H_kk F sqrt(P_current))^-1 W^H - i.e. agrees with the channel object; sum capacity == sum log2(1+SINR); dB == 10 log10")
-def ob_solver(cfg, noise):
+                 "(W^H H_kk F sqrt(P_current))^-1 W^H - i.e. agrees with the channel object; sum capacity == sum log2(1+SINR); dB == 10 log10; "
+                 "prec=explicit_full_F: set_precoders(F, full_F, P) with an INDEPENDENT symbolic full_F (a precoder that uses only part of "
+                 "the power, as the MMSE / stream-reduction solvers set it): the transmitted precoder is full_F")
+def ob_solver(cfg, noise, prec="F_and_P"):
     cf = CONFIGS[cfg]
 
     def body(c, it):
@@ -304,12 +311,12 @@ def ob_solver(cfg, noise):
         s = it.call(alg.ClosedFormIASolver, [o])
         goals = []
 
-        def check(P, tag):
+        def check(P, tag, explicit=None):
             S = it.call(it.getattr(s, "calc_SINR"), [])
             fullF = np.empty(K, dtype=object)
             Ueff = np.empty(K, dtype=object)
             for k in range(K):
-                fullF[k] = F[k] * lift(P[k]).sqrt()
+                fullF[k] = explicit[k] if explicit is not None else F[k] * lift(P[k]).sqrt()
                 WH = _conjT(U[k])
                 Heq = np.dot(WH, np.dot(H[k, k], fullF[k]))
                 adj, det = _det_inv(Heq)
@@ -334,9 +341,14 @@ def ob_solver(cfg, noise):
         for k in range(K):
             P[k] = c.var("P%d" % k, "real")
             c.assume(P[k] > 0)
-        it.call(it.getattr(s, "set_precoders"), [F, None, P])
+        G = None
+        if prec == "explicit_full_F":
+            G = np.empty(K, dtype=object)
+            for k in range(K):
+                G[k] = _cmat(c, "G%d" % k, *np.shape(F[k]))
+        it.call(it.getattr(s, "set_precoders"), [F, G, P])
         it.call(it.getattr(s, "set_receive_filters"), [None, U])
-        allv = check(P, "initial power")
+        allv = check(P, "initial power", G)
         cap = it.call(it.getattr(s, "calc_sum_capacity"), [])
         spec = 0
         for v in allv:
@@ -377,7 +389,8 @@ def _fp_sinr(Hblocks, F, U, k, l, nv, pe=0.0, ext=()):
 
 
 @obligation("native/random_configurations", kind="bounded", timeout=900,
-            desc="complex128: K 2..4, antennas 1..4, streams 1..min, random (non-aligned) precoders/filters, path loss, noise None/0/>0, "
+            desc="complex128: K 2..4, antennas 1..4, streams 1..min, random (non-aligned) precoders/filters, path loss, noise None/0/>0 "
+                 "(given as float, int, numpy int64/float32/float64), "
                  "ext-int sources and powers: channel calc_SINR, IA-solver calc_SINR, JP SINR, Q matrices vs an independent first-principles "
                  "evaluator (rel 1e-9); scale invariance; Hermitian/PSD; sum capacity")
 def ob_native():
@@ -403,15 +416,15 @@ def ob_native():
             o.randomize(Nr, Nt, K, list(NtE))
         else:
             o.randomize(Nr, Nt, K)
-        if rr.rand() < 0.7:
+        if (not (rr.rand() >= 0.7)):
             if ext:
                 o.set_pathloss(rr.rand(K, K) + 0.01, rr.rand(K, len(NtE)) + 0.01)
             else:
                 o.set_pathloss(rr.rand(K, K) + 0.01)
-        nv = [None, 0.0, float(rr.rand() + 0.01)][rr.randint(3)]
-        if nv in (None, 0.0) and not ext and K * 0 == 0:
-            pass
-        o.noise_var = nv
+        # the noise variance in every representation a caller may hold it in: the value, not its type, decides
+        nv_given = [None, 0.0, float(rr.rand() + 0.01), 0, 1, np.int64(2), np.float32(0.5), np.float64(rr.rand() + 0.01)][rr.randint(8)]
+        nv = None if nv_given is None else float(nv_given)
+        o.noise_var = nv_given
         pe = float(rr.rand() + 0.1) if ext else 0.0
         F = np.empty(K, dtype=object)
         U = np.empty(K, dtype=object)
@@ -420,7 +433,7 @@ def ob_native():
         H = o.H
         Hb = [[H[k, j] for j in range(H.shape[1])] for k in range(K)]
         extidx = list(range(K, K + len(NtE)))
-        if rr.rand() < 0.5:
+        if (not (rr.rand() >= 0.5)):
             # a new channel realisation after the path loss was set (first principles uses big_H blocks of the NEW state)
             o.big_H
             if ext:
@@ -437,14 +450,14 @@ def ob_native():
                 want = _fp_sinr(Hb, F, U, k, l, nv, pe, extidx)
                 if not np.isfinite(want):
                     continue
-                if abs(S[k][l] - want) > 1e-9 * max(1.0, abs(want)) or S[k][l] < 0:
+                if (not (abs(S[k][l] - want) <= 1e-9 * max(1.0, abs(want)))) or (not (S[k][l] >= 0)):
                     return {"calc_SINR": [k, l, float(S[k][l]), float(want)]}
         U2 = np.empty(K, dtype=object)
         for k in range(K):
             U2[k] = U[k] * (rr.randn(1, Ns[k]) + 1j * rr.randn(1, Ns[k]))
         S2 = o.calc_SINR(F, U2, pe) if ext else o.calc_SINR(F, U2)
         for k in range(K):
-            if np.abs(S2[k] - S[k]).max() > 1e-8 * max(1.0, np.abs(S[k]).max()):
+            if (not (np.abs(S2[k] - S[k]).max() <= 1e-8 * max(1.0, np.abs(S[k]).max()))):
                 return {"not scale invariant": k}
         for k in range(K):
             Q = o.calc_Q(k, F, pe) if ext else o.calc_Q(k, F)
@@ -452,9 +465,9 @@ def ob_native():
             spec = spec + (nv or 0.0) * np.eye(Nr[k])
             for e in extidx:
                 spec = spec + pe * H[k, e] @ H[k, e].conj().T
-            if np.abs(Q - spec).max() > 1e-9 * max(1.0, np.abs(spec).max()):
+            if (not (np.abs(Q - spec).max() <= 1e-9 * max(1.0, np.abs(spec).max()))):
                 return {"Q != sum of link covariances": k}
-            if np.abs(Q - Q.conj().T).max() > 1e-10 * max(1.0, np.abs(Q).max()) or np.linalg.eigvalsh((Q + Q.conj().T) / 2).min() < -1e-9 * max(1.0, np.abs(Q).max()):
+            if (not (np.abs(Q - Q.conj().T).max() <= 1e-10 * max(1.0, np.abs(Q).max()))) or (not (np.linalg.eigvalsh((Q + Q.conj().T) / 2).min() >= -1e-9 * max(1.0, np.abs(Q).max()))):
                 return {"Q not Hermitian PSD": k}
         if not ext:
             s = alg.ClosedFormIASolver(o)
@@ -486,10 +499,10 @@ def ob_native():
                 for k in range(K):
                     for l in range(Ns[k]):
                         want = _fp_sinr(Hb, fullF, Ue, k, l, nv)
-                        if np.isfinite(want) and (abs(Ss[k][l] - want) > 1e-8 * max(1.0, abs(want)) or abs(Sc[k][l] - Ss[k][l]) > 1e-8 * max(1.0, abs(want))):
+                        if np.isfinite(want) and ((not (abs(Ss[k][l] - want) <= 1e-8 * max(1.0, abs(want)))) or (not (abs(Sc[k][l] - Ss[k][l]) <= 1e-8 * max(1.0, abs(want))))):
                             return {"solver vs channel vs first principles": [k, l, float(Ss[k][l]), float(Sc[k][l]), float(want)]}
                         tot += np.log2(1 + Ss[k][l])
-                if np.isfinite(tot) and abs(s.calc_sum_capacity() - tot) > 1e-9 * max(1.0, tot):
+                if np.isfinite(tot) and (not (abs(s.calc_sum_capacity() - tot) <= 1e-9 * max(1.0, tot))):
                     return {"sum capacity": [float(s.calc_sum_capacity()), float(tot)]}
             # joint processing
             tot_t = int(Nt.sum())
@@ -507,7 +520,7 @@ def ob_native():
                         for d in range(Ns[j]):
                             if (j, d) != (k, l):
                                 den += abs(u.conj() @ Hk @ G[j][:, d]) ** 2
-                    if den > 0 and abs(Sj[k][l] - num / den) > 1e-9 * max(1.0, num / den):
+                    if den > 0 and (not (abs(Sj[k][l] - num / den) <= 1e-9 * max(1.0, num / den))):
                         return {"JP SINR": [k, l, float(Sj[k][l]), float(num / den)]}
         return None
     return bounded(gen(), check)
